@@ -34,6 +34,11 @@ example : yes (Re.regexFn "b".toList "a|b".toList false) = true := by decide +ke
 example : yes (Re.regexFn "xaby".toList "a|b".toList true) = true := by decide +kernel
 /-- an invalid pattern is false, also when the wrapper would make it valid -/
 example : yes (Re.regexFn "".toList "+x*".toList false) = false := by decide +kernel
+/-- `a)|(b` is not a regular expression although `^(?:a)|(b)$` is one (the defect repaired by the second regex fix) -/
+example : yes (Re.regexFn "a".toList "a)|(b".toList false) = false ∧ yes (Re.regexFn "xb".toList "a)|(b".toList false) = false := by decide +kernel
+/-- a literal pattern loses the doubling of its backslashes, a pattern from the document does not (`toPatD`) -/
+example : toPatD (.value (.str ['a', '\\', '\\', 'b'])) = some ['a', '\\', 'b'] ∧
+    toPatD (.ref ⟨[], .str ['a', '\\', '\\', 'b'], []⟩) = some ['a', '\\', '\\', 'b'] := by decide
 
 
 /-! ### `match` / `search` against the textbook semantics of regular expressions
@@ -52,15 +57,15 @@ theorem match_is_whole_string (r : Re.Rx) (hr : Re.anchorFree r = true) (s : Str
 theorem search_is_some_substring (r : Re.Rx) (hr : Re.anchorFree r = true) (s : Str) :
     Re.isMatch r s = true ↔ ∃ pre w post, s = pre ++ w ++ post ∧ Re.L r w := Re.search_substring r hr s
 
-/-- `match(s, p)` as computed from the two strings: whenever the wrapped pattern parses to the anchored form of an anchor-free `r`
-(see the examples below), the answer is `yes` exactly if the whole of `s` is in the language of `r` -/
-theorem match_fn (s p : Str) (r : Re.Rx) (hp : Re.parse (Re.prepare p false) = .ok (Re.anchored r)) (hr : Re.anchorFree r = true) :
+/-- `match(s, p)` as computed from the two strings: whenever the pattern parses to an anchor-free `r`, the answer is `yes` exactly
+if the whole of `s` is in the language of `r` -/
+theorem match_fn (s p : Str) (r : Re.Rx) (hp : Re.parse p = .ok r) (hr : Re.anchorFree r = true) :
     Re.regexFn s p false = .yes ↔ Re.L r s := Re.regexFn_match s p r hp hr
 /-- `search(s, p)` as computed from the two strings -/
-theorem search_fn (s p : Str) (r : Re.Rx) (hp : Re.parse (Re.prepare p true) = .ok r) (hr : Re.anchorFree r = true) :
+theorem search_fn (s p : Str) (r : Re.Rx) (hp : Re.parse p = .ok r) (hr : Re.anchorFree r = true) :
     Re.regexFn s p true = .yes ↔ ∃ pre w post, s = pre ++ w ++ post ∧ Re.L r w := Re.regexFn_search s p r hp hr
-/-- a second argument that is not a regular expression gives LogicalFalse -/
-theorem invalid_pattern_is_false (s p : Str) (sub : Bool) (hp : Re.parse (Re.prepare p sub) = .invalid) : Re.regexFn s p sub = .no :=
+/-- a second argument that is not a regular expression gives LogicalFalse – the anchoring wrapper of `match` cannot rescue it -/
+theorem invalid_pattern_is_false (s p : Str) (sub : Bool) (hp : Re.parse p = .invalid) : Re.regexFn s p sub = .no :=
   Re.regexFn_invalid s p sub hp
 
 -- the wrapper `^(?:p)$` parses to `anchored` of what `p` parses to (tests on literals, not a theorem)
